@@ -33,5 +33,10 @@ type Vector struct {
 
 // Call the function with the arguments provided.
 func (f *Vector) Call(s *slip.Scope, args slip.List, depth int) slip.Object {
-	return slip.NewVector(len(args), slip.TrueSymbol, nil, args, true)
+	// The argument list belongs to the caller, mapcar for one refills it
+	// for each application, so the vector gets its own elements.
+	elements := make(slip.List, len(args))
+	copy(elements, args)
+
+	return slip.NewVector(len(elements), slip.TrueSymbol, nil, elements, true)
 }
